@@ -502,8 +502,10 @@ def main_check(mod, argv):
         else:
             cases = mod.generate(rng, tier)
         env = getattr(mod, "ENV", None)
-        mouts = run_sharded(model_driver_path(drv), cases, run_dir, "model", env=env)
-        iouts = run_sharded(impl_driver_path(drv), cases, run_dir, "impl", env=env)
+        # a driver that hangs (a loop in the code under test) must not stall the check for an hour
+        stream_timeout = getattr(mod, "STREAM_TIMEOUT", 900 if tier == "quick" else 3000)
+        mouts = run_sharded(model_driver_path(drv), cases, run_dir, "model", env=env, timeout=stream_timeout)
+        iouts = run_sharded(impl_driver_path(drv), cases, run_dir, "impl", env=env, timeout=stream_timeout)
         canon = getattr(mod, "canonical", lambda c, o: o)
         seen = set()
         for c, mo, io in zip(cases, mouts, iouts):
